@@ -201,7 +201,15 @@ class Constant(Expression):
 
     def __init__(self, value: float | int | ArrayLike) -> None:
         self._hash = None
-        self.value = np.asarray(value) if not isinstance(value, (int, float)) else value
+        if isinstance(value, (int, float)):
+            # Integers are stored as floats (like Parameter does): integer NumPy
+            # arithmetic would otherwise raise for e.g. abs_(2) ** -2.
+            self.value = float(value) if isinstance(value, int) else value
+        else:
+            arr = np.asarray(value)
+            if arr.dtype.kind in "biu":
+                arr = arr.astype(np.float64)
+            self.value = arr
 
     def evaluate(
         self, values: Mapping[str, ArrayLike | float]
